@@ -43,6 +43,7 @@ Clause → theorem
   reproduced exactly when random_state is set: which stream each Monte-Carlo step uses
                                                                 iform_seeded_reproducible,
                                                                 iform_unforwarded_counterexample (defect #16, repaired)
+  … and cuts everything between the returned candidate and the previous one        xmax_cuts_between_candidates (known finding)
   MC agreement of conditional samples / IFORM ≈ transformed IFORM              PARTIAL — observed per run
 -/
 import VirVerif.Model.Transform
@@ -716,6 +717,25 @@ theorem xmax_truncates :
   rcases xmax_below_threshold_floor (fun x => m * tri x) (1 / 10 ^ 7) (7 / 10) (1 / 20) hall 64 100 with h | h
   · exact absurd h (xmax_search_terminates _ _)
   · exact h
+
+/-- **between two candidates** — the search stops at the FIRST candidate with density ≥ threshold,
+i.e. inside the region where the density is above the threshold: for `tri` it returns `16.807`,
+although the density is above the threshold on all of `(16.807, 19]` (at 18 it is `2·10⁵` times
+the threshold); the `tri`-mass above `16.807` is `3.193²/200 ≈ 5 %`.  (Second known finding; seen on
+the real code for a random Hs–S model at the 0.9 quantile of Hs.) -/
+theorem xmax_cuts_between_candidates :
+    xmaxSearch tri (1 / 10 ^ 7) (7 / 10) (1 / 20) 64 100 = some (16807 / 1000, false) ∧
+      (∀ y : ℚ, 16807 / 1000 < y → y ≤ 19 → ¬ tri y < 1 / 10 ^ 7) ∧
+      tri 18 = 200000 * (1 / 10 ^ 7) := by
+  refine ⟨tri_search_bulk, ?_, by norm_num [tri]⟩
+  intro y h1 h2
+  have h10 : ¬ y ≤ 10 := by linarith
+  have h0 : ¬ y ≤ 0 := by linarith
+  have h20 : y ≤ 20 := by linarith
+  simp only [tri, if_neg h0, if_neg h10, if_pos h20, not_lt]
+  have : (1 : ℚ) / 100 ≤ (20 - y) / 100 := by linarith
+  calc (1 : ℚ) / 10 ^ 7 ≤ 1 / 100 := by norm_num
+    _ ≤ (20 - y) / 100 := this
 
 /-- non-vacuity of the tail case: `m = 1e-7` (then `m·max g = 1e-8 < 1e-7`) -/
 example : (0 : ℚ) < 1 / 10 ^ 7 ∧ (1 / 10 ^ 7 : ℚ) * tri 10 < 1 / 10 ^ 7 := by
